@@ -63,6 +63,24 @@ NEEDS.update({
  "C18r2-A": "getInfo through the trait, then the store's or the user-validation method's capabilities change, then getInfo through the trait again: the first answer is cached",
  "C18r2-B": "credential with a counter + a store that fails (or lies) on one more lookup after the counter update: the trait path re-reads the counter and errs where the direct path succeeds",
 })
+NEEDS.update({
+ "C02r3-A": "two registrations for the same RP and user handle into a store that answers discoverable lookups: the new passkey takes over the old credential's id (not fresh, store does not grow, possibly wrong length)",
+ "C02r3-B": "a configured credential-id length above 32: the id is the first bytes of SHA-256(public key), silently capped at 32 bytes (two cooperating sites)",
+ "C03r3-A": "a non-empty allow list naming only unknown ids while the RP holds a credential and the store answers discoverable lookups: the client narrows the list to empty, the authenticator treats empty as absent, an assertion is produced",
+ "C03r3-B": "the same (RP, user) registered twice on a store with discoverable lookups, then an assertion that resolves to the first id: the old id now signs with the new key",
+ "C05r3-A": "Client::register with an exclude-list descriptor whose transport hints do not intersect the authenticator's transports: the entry is dropped, an all-dropped list is treated as absent",
+ "C05r3-B": "Option<Passkey> store + an id list naming the held id + request RP ID that is a sub-domain of the credential's RP ID: the credential of the parent RP is returned",
+ "C07r3-A": "an assertion dropped while suspended inside update_credential before the store applied the write, then another failing ceremony on the same Authenticator: the left-over counter update is replayed, a failing registration changes the store",
+ "C07r3-B": "counters on, two located credentials, the first cannot serve the request (PRF without secrets / UV blocked): its counter is spent, the next candidate is tried; a ceremony that fails or is dropped has advanced two counters",
+ "C09r3-A": "used credential has an evalByCredential entry with only `first`, default eval has a `second`, non-UV config: a second result computed from the default input is returned",
+ "C09r3-B": "evalByCredential key \"\" while allowCredentials contains a zero-length id: the empty-key check was removed as redundant, the request reaches the authenticator",
+ "C15r3-A": "JSON string \"0e9223372036854775807\" in timeout or alg: exact decimal scaling loops once per unit of exponent when the mantissa is zero",
+ "C15r3-B": "getInfo whose AAGUID is an indefinite-length CBOR array (or JSON list) with more than 16 elements: unchecked index in the new visit_seq",
+ "C16r3-A": "a CANCEL-command message of 58 bytes or more: delivered on its first packet, truncated",
+ "C16r3-B": "129 or more packets of other channels between two consecutive packets of one channel: its partial message is dropped as abandoned",
+ "C19r3-A": "three assertions on the same credential, two waiting for the per-credential turn at once: single waker slot, the first waiter is never woken",
+ "C19r3-B": "an assertion's counter write arriving while another ceremony holds the store lock: try_lock fails and the wrapper returns Ok without writing",
+})
 # changes whose description showed that the generator could not reach them; strengthened before their first run
 PRE_STRENGTHENED = {"C06r2-A", "C06r2-B"}
 results = {}
